@@ -3,6 +3,7 @@ mod api;
 mod bytes;
 mod cli;
 mod extract;
+mod fault;
 mod gen;
 mod hist;
 mod miri;
@@ -200,11 +201,21 @@ fn run_hist(args: &Args, oracle: Oracle, mix: Mix) -> (Report, String, bool) {
             let index = shard as u64 * per + k;
             let c = hist::random_case(seed, &label, index, mix);
             hist::run_case(&c, oracle, &mut rep);
+            // reader faults: every 25th random history is supplied again through a BufRead that reports
+            // an io::Error at seeded byte offsets of one of its steps (fault.rs: Err, or Ok identical
+            // to the fault-free run; a fault that never clears before the root ends must be Err)
+            if k % 25 == 7 {
+                let texts = c.texts();
+                if texts.iter().map(|t| t.len()).sum::<usize>() <= 6000 {
+                    let mut fr = gen::Rng::derive(seed, &format!("{}-faults", label), index);
+                    fault::sweep(&texts, &mut fr, 12, &mut rep, &c.origin);
+                }
+            }
         }
         rep
     });
     let rule = format!(
-        "histories parse(D1),extend(D2..Dk) through the real parser: (1) exhaustive — every document over names {{a,b}} under root r with <= {} elements below the root, depth <= 2, attribute k on or off ({} documents; all singles and all {} ordered pairs) and every ordered pair of the {} documents with <= 2 elements and text on/off; (2) sampled triples of those; (3) {} seeded random histories (profiles tiny/general/many-docs/adversarial names/wide/deep/long-list, 1-16 documents, random surface syntax and reader kinds); (4) exhaustive occurrence patterns: every assignment of absent/once/twice to each child over k occurrences of one parent (k=2,3 over three children, k=4 over two, k=5 over one; thorough: k=4 over three, k=5 over two, k=6 over one), each supplied inside one document, one occurrence per document, and under two occurrences of a grandparent; (5) deterministic threshold families: N occurrences of a parent (254..513, 65535..65537), N same-named children in one occurrence (255..1024, 65536, 131072), M distinct child or attribute names (63..300) with late repeats / late absences, chains of depth 7..300 (same name, distinct names, alternating, two branches, deep part arriving with the third document), text/CDATA nodes with a multi-byte character straddling offsets 64..4096; (6) magnitude families (T7): the same dimensions (occurrences, siblings, distinct child/attribute names, depth <= 199, name length, number of documents) at decimal round numbers (10..10000) and at seeded log-uniform random magnitudes, with a seeded position for the one occurrence/document that lacks or doubles the child. Non-trivial: the reference schema has more than one position or an attribute; distinct: hash of (canonical reference schema, rendered bytes).",
+        "histories parse(D1),extend(D2..Dk) through the real parser: (1) exhaustive — every document over names {{a,b}} under root r with <= {} elements below the root, depth <= 2, attribute k on or off ({} documents; all singles and all {} ordered pairs) and every ordered pair of the {} documents with <= 2 elements and text on/off; (2) sampled triples of those; (3) {} seeded random histories (profiles tiny/general/many-docs/adversarial names/wide/deep/long-list, 1-16 documents, random surface syntax and reader kinds); (4) exhaustive occurrence patterns: every assignment of absent/once/twice to each child over k occurrences of one parent (k=2,3 over three children, k=4 over two, k=5 over one; thorough: k=4 over three, k=5 over two, k=6 over one), each supplied inside one document, one occurrence per document, and under two occurrences of a grandparent; (5) deterministic threshold families: N occurrences of a parent (254..513, 65535..65537), N same-named children in one occurrence (255..1024, 65536, 131072), M distinct child or attribute names (63..300) with late repeats / late absences, chains of depth 7..300 (same name, distinct names, alternating, two branches, deep part arriving with the third document), text/CDATA nodes with a multi-byte character straddling offsets 64..4096; (6) magnitude families (T7): the same dimensions (occurrences, siblings, distinct child/attribute names, depth <= 199, name length, number of documents) at decimal round numbers (10..10000) and at seeded log-uniform random magnitudes, with a seeded position for the one occurrence/document that lacks or doubles the child; (7) every fifth random history renders the tree (both orders, two option sets, every other time on another thread) after each step before extending it further; (8) reader faults: every 25th random history is supplied again through a BufRead that reports an io::Error (WouldBlock, TimedOut, Other, UnexpectedEof, BrokenPipe, PermissionDenied, InvalidData once or for good; Interrupted once) at 12 byte offsets of one step (first, last, end, seeded): the call must return Err or an Ok tree rendering byte-identically to the fault-free run, and a fault that never clears before the root element ends must be Err. Non-trivial: the reference schema has more than one position or an attribute; distinct: hash of (canonical reference schema, rendered bytes).",
         if thorough { 4 } else { 3 },
         na,
         na * na,
